@@ -417,6 +417,7 @@ class C20(Prop):
         if r.random() < 0.7:
             cfg.update(hier_config(r))
             cfg["source"] = "hier"
+            cfg["upto_rate"] = r.choice([0.0, 0.3])
             cfg["fmt"] = "edf"
             cfg["acyclic_libs"] = True
             cfg["edif_props"] = True
